@@ -295,8 +295,6 @@ impl World {
 #[derive(Clone, Copy)]
 pub struct FixedArea {
     pub base: *mut u8,
-    /// real descriptor of the file registered as fixed file 0
-    pub reg_fd: i32,
 }
 impl FixedArea {
     pub fn slot(&self, i: usize) -> *mut u8 {
@@ -322,7 +320,6 @@ pub struct Slot {
     /// operation-specific descriptors: `a` is the one the operation acts on
     a: i32,
     b: i32,
-    c: i32,
     sockarg: Option<Box<SocketArgUnix>>,
     sun: Box<libc::sockaddr_un>,
     sun_len: u32,
@@ -394,7 +391,6 @@ impl Slot {
             ts: Box::new(TimeSpec::new(0, 1_000_000)),
             a: -1,
             b: -1,
-            c: -1,
             sockarg: None,
             sun: Box::new(unsafe { std::mem::zeroed() }),
             sun_len: 0,
